@@ -322,6 +322,11 @@ def main(argv=None) -> int:
                               {"input_id": origin, "rule": rule, "source": text, "output": out})
     n_sub = substitution(rep, mods, rng, t)
     n_sub += scheduler_and_editor(rep, mods, t)
+    # Editor.tla: every conflict-free set of additions / removals / replacements on every small source, through the real alter_code
+    import c03_editor
+    editor_stats: dict = {}
+    n_sub += c03_editor.run(rep, t, editor_stats, mode="conform", rng=rng)
+    rep.coverage["editor_cases"] = editor_stats
 
     rep.coverage["evaluations"] = len(runs) + n_iso + n_sub + n_guard
     rep.coverage["distinct_nontrivial"] = nontrivial + sum(fired.values())
@@ -332,7 +337,9 @@ def main(argv=None) -> int:
     rep.coverage["rule"] = ("recorded format_code runs over Shapes.tla cases, repository snippets (also as indented fragments) and "
                             "stdlib modules, validated by TLC (KeepValid per stage, FinalValid); every rule on every snippet in "
                             "isolation; sub/subn with patterns cut from the source; the write-guard table of FileWrite.tla on "
-                            "temp files. Non-trivial = the run / rule changed the text")
+                            "temp files; Editor.tla (sets of additions / removals / replacements in original coordinates, applied one after the "
+                            "other: TLC checks sequential = simultaneous on conflict-free sets) replayed into processing.alter_code. "
+                            "Non-trivial = the run / rule changed the text")
     for r in runs[:: max(1, len(runs) // 3)][:3]:
         rep.sample({"input_id": r.key, "source": r.source[:200], "stages_changing_text": [e["stage"] for e in r.changed_events()][:12]})
     rep.assumptions += ["validity = ast.parse succeeds (after textwrap.dedent for indented fragments)"]
